@@ -4,8 +4,24 @@ from .core import cmeta, sut, tag
 from .models import SIZES, WINDOWS
 
 
+# Sparse observation (DESIGN 12.9): the names of the queries NOT made at this step.  A query is named by the function it
+# calls, with a trailing "*" when it is called with keyword filters (get_edges* = get_edges(size=...) etc.).  Whatever a
+# muted query would have contributed is left out of the comparison of this step - on both sides.
+MUTED = set()
+MUTABLE = ["get_sizes", "get_orders", "distribution_sizes", "max_size", "max_order", "is_uniform", "degree_distribution",
+           "degree_distribution*", "degree_sequence", "num_edges", "num_edges*", "num_nodes", "len", "get_weights", "get_weights*",
+           "get_edges*", "get_nodes*", "get_all_nodes_metadata", "get_all_edges_metadata", "get_neighbors", "get_neighbors*",
+           "degree", "degree*", "get_incident_edges", "get_incident_edges*", "check_edge", "check_node", "get_sources",
+           "get_targets", "get_source_edges", "get_source_edges*", "get_target_edges", "get_target_edges*", "in_degree",
+           "in_degree*", "out_degree", "out_degree*", "min_time", "max_time", "get_times_for_edge", "get_weight",
+           "get_edge_metadata", "get_node_metadata", "is_weighted", "get_hypergraph_metadata"]
+MUTED_TEXT = "!EXC:MUTED"
+
+
 def q(f, *a, **kw):
     """Call a library query; an exception becomes part of the observation."""
+    if MUTED and (getattr(f, "__name__", "") + ("*" if kw else "")) in MUTED:
+        return _Exc("MUTED")
     try:
         return f(*a, **kw)
     except Exception as e:  # noqa: the library is the thing under test
@@ -325,6 +341,13 @@ def apply_op(kind, h, op):
     op = cp(op)
     name = op["op"]
     form = op.get("form", "t")
+    seq = op.get("seq")
+
+    def batch(x):
+        """How the batch argument of add_nodes / remove_nodes / remove_edges is handed over: list, tuple or one-shot iterator."""
+        x = list(x)
+        return tuple(x) if seq == "tuple" else (iter(x) if seq == "iter" else x)
+
     try:
         if name == "add_node":
             if "md" in op and op["md"] is not None:
@@ -335,11 +358,11 @@ def apply_op(kind, h, op):
             if op.get("mds") is not None:
                 d = {n: cp(m) for n, m in op["mds"]}
                 if kind == "M":
-                    h.add_nodes(list(op["ns"]), node_metadata=d)
+                    h.add_nodes(batch(op["ns"]), node_metadata=d)
                 else:
-                    h.add_nodes(list(op["ns"]), metadata=d)
+                    h.add_nodes(batch(op["ns"]), metadata=d)
             else:
-                h.add_nodes(list(op["ns"]))
+                h.add_nodes(batch(op["ns"]))
         elif name == "add_edge":
             kw = {}
             if op.get("w") is not None:
@@ -375,7 +398,7 @@ def apply_op(kind, h, op):
             else:
                 h.remove_edge(e)
         elif name == "remove_edges":
-            h.remove_edges([_edge_arg(kind, e, "t") for e in op["es"]])
+            h.remove_edges(batch([_edge_arg(kind, e, "t") for e in op["es"]]))
         elif name == "remove_node":
             if "keep" in op:
                 h.remove_node(op["n"], keep_edges=op["keep"])
@@ -383,9 +406,9 @@ def apply_op(kind, h, op):
                 h.remove_node(op["n"])
         elif name == "remove_nodes":
             if "keep" in op:
-                h.remove_nodes(list(op["ns"]), keep_edges=op["keep"])
+                h.remove_nodes(batch(op["ns"]), keep_edges=op["keep"])
             else:
-                h.remove_nodes(list(op["ns"]))
+                h.remove_nodes(batch(op["ns"]))
         elif name == "set_weight":
             e = _edge_arg(kind, op["e"], form)
             if kind == "T":
